@@ -14,13 +14,7 @@ ASSUMPTIONS = ["increasing time axes (whole seconds, and regular / irregular axe
                "constant windows (the property excludes spreads within rounding distance of a threshold)"]
 
 
-def sig_range_nan(f):
-    c = f.get("case", {})
-    return f.get("function", "").startswith("attenuated_signal_test") and isinstance(c, dict) and "tp" in c \
-        and fa.range_nan_case(c)
-
-
-SIGNATURES = {"attenuated_range_window_with_missing_value_is_unknown": sig_range_nan}
+SIGNATURES = {}
 
 
 def run(ctx):
@@ -31,8 +25,8 @@ def run(ctx):
         # the generator is large: keep every 3rd case in the quick tier (deterministic)
         allc = allc[::3]
     dom = [c for c in allc if ad.in_domain(c)]
-    nan_cases = [c for c in allc if fa.range_nan_case(c)]
-    r1 = adapters.run_adapter(ad, dom + nan_cases, rng)
+    nan_cases = [c for c in dom if fa.range_nan_case(c)]      # rolling range with a missing value in the window (F19, repaired)
+    r1 = adapters.run_adapter(ad, dom, rng)
     r2 = adapters.run_adapter(adapters.SpecOf(ad), nan_cases, rng, repeat_frac=0)
     for f in r2["failures"]:
         f["kind"] = "predicate"
@@ -42,7 +36,7 @@ def run(ctx):
     # parameters, is compared with the model (r3), and the implementation must give both the same flags
     import copy
     pool = [c for c in dom if c["tp"] not in ("absent", None) and isinstance(c["tp"], int) and c["tp"] >= 1
-            and len(c["xs"]) >= 2 and not fa.range_nan_case(c)]
+            and len(c["xs"]) >= 2]
     rel_fail, scaled = [], []
     for c in (pool if len(pool) <= 300 else rng.sample(pool, 300)):
         b = copy.deepcopy(c)
@@ -67,8 +61,8 @@ def run(ctx):
         [r1, r2, r3],
         rule="series n<=5 over {missing,0,1,3} on regular (1 s, 60 s) and irregular axes x check types x test_period in "
              "{None, 1,2,3 steps} x min_obs x min_period x thresholds on both sides (fail>suspect included), random longer "
-             "series, bad check_type; implementation vs model on the domain plus the rolling-range-with-missing class, and vs "
-             "the specification on that class (known finding); fractional test periods through the time-scaling relation "
+             "series, bad check_type; implementation vs model on the domain, and vs the specification on the "
+             "rolling-range-with-a-missing-value class (the former deviation F19); fractional test periods through the time-scaling relation "
              "(implementation on (ts, P+1/2) == implementation on (2 ts, 2P+1) == model). non-trivial = >=2 distinct flags or raises")
 
 
